@@ -209,6 +209,18 @@ def reanchor(mirror_text, mirror_toks, src_text, src_toks):
     for tag, i1, i2, j1, j2 in sm.get_opcodes():
         if tag == 'equal':
             for d in range(i2 - i1): b2s[i1 + d] = j1 + d
+    # renamed locals: when every occurrence of identifier `a` in the mirror's code was replaced by the same new identifier `b`
+    # (and `a` no longer occurs in the source, `b` did not occur in the mirror), the annotations follow the rename
+    ren = {}; bad = set()
+    for tag, i1, i2, j1, j2 in sm.get_opcodes():
+        if tag == 'replace' and i2 - i1 == j2 - j1:
+            for d in range(i2 - i1):
+                a, b = base[i1 + d], src_toks[j1 + d]
+                if a.kind == 'id' and b.kind == 'id' and a.text != b.text:
+                    if ren.get(a.text, b.text) != b.text: bad.add(a.text)
+                    ren[a.text] = b.text
+    sset = set(stxt); bset = set(btxt)
+    ren = {a: b for a, b in ren.items() if a not in bad and a not in sset and b not in bset}
     place = {}   # src token index -> list of ann tokens to insert BEFORE it (len(src) = at end)
     displaced = 0
     for bi, toks in chunks.items():
@@ -244,6 +256,7 @@ def reanchor(mirror_text, mirror_toks, src_text, src_toks):
             tg = line_tags(mirror_lines, ln)
             a, b = byline[ln]
             seg = mirror_text[a.pos:b.end].replace(R.ANN_ON, ' ').replace(R.ANN_OFF, ' ')
+            for o, nw in ren.items(): seg = re.sub(r'(?<![A-Za-z0-9_])%s(?![A-Za-z0-9_])' % re.escape(o), nw, seg)
             out.append('\n' + seg + ' //@' + (' [' + tg + ']' if tg else '') + '\n')
     out.append(src_text[pos:])
     return ''.join(out)
